@@ -6,6 +6,7 @@ import multiprocessing
 import random
 
 import dsched
+import fixture
 import shellrun
 import sx
 import wire
@@ -249,6 +250,7 @@ def work(arg):
     for i in range(n):
         sc = gen(rng)
         s2 = rng.getrandbits(32)
+        fixture.set_logging(i % 5 == 2)          # a fifth of the runs with every library logger at DEBUG
         ch = dsched.PCTChooser(random.Random(s2), depth=rng.choice([1, 3, 6])) if i % 2 else dsched.RandomChooser(random.Random(s2))
         if i % 10 == 9:
             # line-granular preemption, oracle only (DESIGN.md section 4)
